@@ -77,6 +77,28 @@
 (*   HistSound    every live paragraph of every reachable state reads back *)
 (*                (model reader, both forms, both settings) as one         *)
 (*                paragraph with its own keys                              *)
+(* Faults of caller-supplied objects (SIZE_STRESS part 5; WithFault = TRUE  *)
+(* in every configuration):                                                *)
+(*   FaultDump(o, k)  o.dump(fd) with a file object fd the CALLER supplies *)
+(*                    and whose k-th write() fails (ENOSPC, closed file, a *)
+(*                    text file without text_mode, a private exception, a  *)
+(*                    short write ...), k = 1..number of fields (one write *)
+(*                    per field).  Reference: the caller's fault comes out *)
+(*                    ("fault") and NOTHING else happens -- every paragraph*)
+(*                    is what it was and, the statement being about "the   *)
+(*                    paragraph", every later dump of it is the dump of    *)
+(*                    the WHOLE paragraph: Shown(o) = hp[o].               *)
+(*   FaultBuild(o, q, k)  Cls_o(M) with a caller-supplied mapping M over   *)
+(*                    the fields of live object q that fails at its k-th   *)
+(*                    item (keys() / __getitem__ raising): the caller's    *)
+(*                    exception comes out, no object is built, every live  *)
+(*                    paragraph is what it was (WithBuild only).           *)
+(* Implementation layer: dmemo[o] = number of entries of a serialisation   *)
+(* kept for object o (-1 = none; the code keeps none).  Negative control   *)
+(*   DumpMemoPartial       the entries formatted so far are kept when the  *)
+(*                         consumer of the dump stops early, and replayed  *)
+(*                         until the paragraph changes -> HistSound (the   *)
+(*                         later dump reads back with fewer field names)   *)
 (* EmitH = TRUE prints the complete LTS as EDGE lines; c08.py replays      *)
 (* walks through it on real objects (Deb822 / Dsc / Changes), concretizing *)
 (* the three values with payload runs, line counts, key lengths and        *)
@@ -88,14 +110,17 @@ EXTENDS Deb822Value
 CONSTANTS MemoMode, RejectStoresEmpty, EmitH,
           UseN,                                    \* TRUE: keys A / N / Files, FALSE: A / Files
           WithBuild,                               \* TRUE: Fresh and Rebuild are enabled
-          TrustSourceClass, ParseLeavesUnchecked   \* negative controls of the construction layer (FALSE)
+          TrustSourceClass, ParseLeavesUnchecked,  \* negative controls of the construction layer (FALSE)
+          WithFault,                               \* TRUE: FaultDump / FaultBuild are enabled
+          DumpMemoPartial                          \* negative control of the fault layer (FALSE)
 
 ASSUME WithBuild => MemoMode = "none"              \* (the memo controls are run without construction)
 
 VARIABLES hp, memo, hres,
-          unchk            \* implementation layer: the objects that no longer validate (always {} in the code)
+          unchk,           \* implementation layer: the objects that no longer validate (always {} in the code)
+          dmemo            \* implementation layer: dmemo[o] entries of a kept serialisation, -1 = none (the code)
 
-hvars == <<hp, memo, hres, unchk>>
+hvars == <<hp, memo, hres, unchk, dmemo>>
 
 HCls   == <<"D", "S", "S">>
 Objs   == 1..Len(HCls)
@@ -142,11 +167,17 @@ Trusted(t, c) == TrustSourceClass /\ c \in {"D", "S"} /\ (t = "D" \/ t = c)
 ImplBuildOK(t, c, m) == Trusted(t, c) \/ \A i \in 1..Len(m) : Validate(m[i].v) = "ok"
 NoHres == [op |-> "none", o |-> 0, k |-> <<>>, v |-> <<>>, res |-> "none", m |-> <<>>]
 
+\* what dump() / str() / dump(fd) of object o serialises: the paragraph -- in the code; the kept entries in
+\* the negative control.  Any change of the paragraph drops what was kept.
+Shown(o)   == IF dmemo[o] = -1 THEN hp[o] ELSE SubSeq(hp[o], 1, dmemo[o])
+Forget(o)  == [dmemo EXCEPT ![o] = -1]
+
 Edge(op, args, r) == EmitH => PrintT(<<"EDGE", ToJson([from |-> hp, op |-> op, args |-> args, res |-> r, to |-> hp'])>>)
 
 HInit == /\ hp = [o \in Objs |-> << [k |-> KA, v |-> VX] >>]
          /\ memo = <<>>
          /\ hres = NoHres /\ unchk = {}
+         /\ dmemo = [o \in Objs |-> -1]
          /\ inp = <<>> /\ para = <<>> /\ res = "none" /\ out = <<>>
          /\ (EmitH => \A v \in HValues \cup {VX} :
                          PrintT(<<"VALUE", ToJson([v |-> v, cls |-> Classify(v), segs |-> Segs(v)])>>))
@@ -157,13 +188,14 @@ Assign(o, k, v) == /\ ~IsMultiKey(HCls[o], k)
                         /\ memo' = Remember(HCls[o], k, v)
                         /\ hres' = [NoHres EXCEPT !.op = "assign", !.o = o, !.k = k, !.v = v, !.res = vd]
                         /\ Edge("assign", <<o, k, v>>, vd)
+                        /\ dmemo' = IF vd = "ok" THEN Forget(o) ELSE dmemo
                    /\ UNCHANGED <<vars, unchk>>
 Scratch(c, v)   == /\ IsMultiKey(c, KF)
                    /\ hp' = hp
                    /\ memo' = Remember(c, KF, v)
                    /\ hres' = [NoHres EXCEPT !.op = "scratch", !.k = KF, !.v = v, !.res = "unspec"]
                    /\ Edge("scratch", <<c, KF, v>>, "unspec")
-                   /\ UNCHANGED <<vars, unchk>>
+                   /\ UNCHANGED <<vars, unchk, dmemo>>
 Fresh(o, how)   == /\ WithBuild
                    /\ hp' = [hp EXCEPT ![o] = <<>>]
                    /\ unchk' = IF how = "cleared" THEN unchk                        \* the same object
@@ -171,6 +203,7 @@ Fresh(o, how)   == /\ WithBuild
                                 ELSE unchk \ {o}
                    /\ hres' = [NoHres EXCEPT !.op = "fresh", !.o = o, !.res = "ok"]
                    /\ Edge("fresh", <<o, how>>, "ok")
+                   /\ dmemo' = Forget(o)
                    /\ UNCHANGED <<vars, memo>>
 Rebuild(o, q, c, x) ==
                    /\ WithBuild
@@ -183,14 +216,32 @@ Rebuild(o, q, c, x) ==
                              /\ unchk' = IF ok THEN unchk \ {o} ELSE unchk
                              /\ hres' = [NoHres EXCEPT !.op = "rebuild", !.o = o, !.m = m, !.res = r]
                              /\ Edge("rebuild", <<o, q, c, x, m>>, r)
+                             /\ dmemo' = IF ok THEN Forget(o) ELSE dmemo
                    /\ UNCHANGED <<vars, memo>>
+\* faults of caller-supplied objects
+FaultDump(o, k) == /\ WithFault
+                   /\ k \in 1..Len(hp[o])                              \* one write per field; an empty paragraph writes nothing
+                   /\ hp' = hp
+                   /\ dmemo' = IF DumpMemoPartial /\ dmemo[o] = -1 THEN [dmemo EXCEPT ![o] = k] ELSE dmemo
+                   /\ hres' = [NoHres EXCEPT !.op = "faultdump", !.o = o, !.res = "fault"]
+                   /\ Edge("faultdump", <<o, k>>, "fault")
+                   /\ UNCHANGED <<vars, memo, unchk>>
+FaultBuild(o, q, k) ==
+                   /\ WithFault /\ WithBuild
+                   /\ k \in 1..Len(hp[q])
+                   /\ hp' = hp
+                   /\ hres' = [NoHres EXCEPT !.op = "faultbuild", !.o = o, !.res = "fault"]
+                   /\ Edge("faultbuild", <<o, q, k>>, "fault")
+                   /\ UNCHANGED <<vars, memo, unchk, dmemo>>
 
 HNext == \/ \E o \in Objs, k \in HKeys, v \in HValues : Assign(o, k, v)
          \/ \E v \in HValues : Scratch("S", v)
          \/ \E o \in Objs, how \in Hows : Fresh(o, how)
          \/ \E o \in Objs, q \in Objs, c \in Carriers, x \in HValues \cup {NoValue} : Rebuild(o, q, c, x)
+         \/ \E o \in Objs, k \in 1..Cardinality(HKeys) : FaultDump(o, k)
+         \/ \E o \in Objs, q \in Objs, k \in 1..Cardinality(HKeys) : FaultBuild(o, q, k)
 HSpec == HInit /\ [][HNext]_<<hvars, vars>>
-HView == <<hp, memo, unchk>>           \* hres is an output
+HView == <<hp, memo, unchk, dmemo>>           \* hres is an output
 
 HistoryFreeStep ==
     LET e == hres' IN
@@ -205,8 +256,11 @@ HistoryFreeStep ==
                            /\ e.res = r.res
                            /\ hp'[e.o] = r.para
                            /\ \A q \in Objs \ {e.o} : hp'[q] = hp[q]
+    /\ e.op \in {"faultdump", "faultbuild"} => hp' = hp /\ e.res = "fault"      \* the fault comes out, nothing else
 HistoryFree == [][HistoryFreeStep]_<<hvars, vars>>
 
 \* (an empty paragraph has no text: the round trip is about paragraphs that hold a field)
-HistSound == \A o \in Objs : hp[o] # <<>> => SoundObs(hp[o], ObsAll(hp[o]))
+\* ... the text being what a dump of the object gives NOW, whatever dumps -- completed or not -- came before
+HistSound == \A o \in Objs : hp[o] # <<>> => SoundObs(hp[o], ObsAll(Shown(o)))
+DumpWhole == \A o \in Objs : Shown(o) = hp[o]
 =============================================================================
